@@ -204,6 +204,78 @@ pub fn load_known_findings(prop: &str) -> Vec<KnownFinding> {
     out
 }
 
+
+// ------------------------------------------------------------------ watchdog
+//
+// A step of a simulated task that never reaches a scheduling point (an endless
+// loop in plain sequential code) cannot be bounded by the step cap. Every
+// scenario execution therefore runs under a wall-clock watchdog; when it
+// fires the action (report + exit) runs on the watchdog thread.
+
+pub mod watchdog {
+    use std::sync::{Mutex, Once};
+    use std::time::{Duration, Instant};
+
+    type Action = Box<dyn FnOnce() + Send>;
+    static SLOT: Mutex<Option<(Instant, Action)>> = Mutex::new(None);
+    static START: Once = Once::new();
+
+    pub fn hang_limit_s() -> f64 {
+        super::env_u64("VERIF_HANG_S", 40) as f64
+    }
+
+    pub fn arm(limit_s: f64, action: Action) {
+        START.call_once(|| {
+            std::thread::spawn(|| loop {
+                std::thread::sleep(Duration::from_millis(100));
+                let fire = {
+                    let mut g = SLOT.lock().unwrap();
+                    match g.as_ref() {
+                        Some((deadline, _)) if Instant::now() >= *deadline => g.take().map(|x| x.1),
+                        _ => None,
+                    }
+                };
+                if let Some(f) = fire {
+                    f();
+                }
+            });
+        });
+        *SLOT.lock().unwrap() = Some((Instant::now() + Duration::from_secs_f64(limit_s), action));
+    }
+
+    pub fn disarm() {
+        *SLOT.lock().unwrap() = None;
+    }
+}
+
+pub const HANG_CLASS: &str = "no-termination:HANG";
+
+/// replay file for a scenario whose execution never came back
+pub fn write_hang_replay<S: Scenario>(sc: &S, base_seed: u64, index: u64, limit_s: f64) -> String {
+    let rf = ReplayFile {
+        property: S::PROP.to_string(),
+        run_seed: sc.run_seed(),
+        base_seed,
+        index,
+        class: HANG_CLASS.to_string(),
+        detail: format!("the scenario did not finish within {limit_s} s of wall-clock time although the step cap bounds the number of scheduling points: some task loops for ever without reaching a synchronisation point"),
+        log_hash: String::new(),
+        scenario: serde_json::to_value(sc).unwrap(),
+        traces: vec![],
+        minimised: false,
+        original_size: sc.size(),
+        original_trace_len: 0,
+        minimised_size: sc.size(),
+        minimised_trace_len: 0,
+        minimise_steps: 0,
+    };
+    let dir = format!("{}/replays", out_dir());
+    let _ = std::fs::create_dir_all(&dir);
+    let path = format!("{}/{}-{}-{}.json", dir, S::PROP, base_seed, index);
+    std::fs::write(&path, serde_json::to_string_pretty(&rf).unwrap()).expect("write replay file");
+    path
+}
+
 // ------------------------------------------------------------------ replay files
 
 #[derive(Serialize, Deserialize, Clone, Debug)]
@@ -267,7 +339,41 @@ pub fn replay_file<S: Scenario>(rf: &ReplayFile, path: &str) -> i32 {
             return 2;
         }
     };
-    let out = sc.execute(&Plan::Replay { traces: rf.traces.clone(), strict: true });
+    {
+        let (prop, path2, recorded) = (rf.property.clone(), path.to_string(), rf.class.clone());
+        let limit = watchdog::hang_limit_s();
+        watchdog::arm(
+            limit,
+            Box::new(move || {
+                if recorded == HANG_CLASS {
+                    println!("replay reproduced: class={HANG_CLASS} (no result within {limit} s)");
+                    println!("VIOLATION property={prop} replay={path2}");
+                    std::process::exit(1);
+                }
+                println!("HARNESS-ERROR: replay of {path2} hangs (recorded class={recorded})");
+                std::process::exit(2);
+            }),
+        );
+    }
+    let out = if rf.class == HANG_CLASS {
+        sc.execute(&Plan::Seeded)
+    } else {
+        sc.execute(&Plan::Replay { traces: rf.traces.clone(), strict: true })
+    };
+    watchdog::disarm();
+    if rf.class == HANG_CLASS {
+        return match &out.violation {
+            Some(v) => {
+                println!("replay of {path}: the recorded hang is gone, but the scenario violates class={}: {}", v.class, v.detail);
+                println!("VIOLATION property={} replay={}", rf.property, path);
+                1
+            }
+            None => {
+                println!("replay of {path}: finished without violation on the current tree (recorded class={HANG_CLASS})");
+                0
+            }
+        };
+    }
     let lh = format!("{:016x}", out.log_hash);
     match &out.violation {
         Some(v) if v.class == rf.class && lh == rf.log_hash && !out.diverged => {
@@ -425,7 +531,12 @@ pub struct SearchReport<S: Scenario> {
     pub stats: RunStats,
     pub wall_s: f64,
     pub samples: Vec<Value>,
-    pub violations: Vec<(u64, S, Outcome)>,
+    /// indices of violating runs (deterministic in (seed, index); re-executed by the reporter process)
+    pub violations: Vec<u64>,
+    /// runs that never came back: (index, replay file, finding signature)
+    pub hung: Vec<(u64, String, String)>,
+    pub tier: Tier,
+    pub _marker: std::marker::PhantomData<S>,
     /// known findings hit: signature -> (count, first index)
     pub known_hits: BTreeMap<String, (u64, u64)>,
     pub stopped_early: bool,
@@ -512,7 +623,23 @@ pub fn worker_main<S: Scenario>(tier: Tier, base_seed: u64, runs: u64, shard: u6
                 break;
             }
         }
+        {
+            let (dir2, limit) = (dir.to_string(), watchdog::hang_limit_s());
+            watchdog::arm(
+                limit,
+                Box::new(move || {
+                    let prop_seed = derive(base_seed, S::LABEL);
+                    let sc = S::generate(derive(prop_seed, i), tier, i);
+                    let path = write_hang_replay(&sc, base_seed, i, limit);
+                    let sig = sc.finding_signature(&Violation { class: HANG_CLASS.into(), detail: String::new() });
+                    let _ = std::fs::write(format!("{dir2}/shard-{shard}.hung"), format!("{i}\n{path}\n{sig}\n"));
+                    let _ = std::fs::write(format!("{dir2}/STOP"), b"stop");
+                    std::process::exit(3);
+                }),
+            );
+        }
         let (sc, out) = run_one::<S>(base_seed, tier, i);
+        watchdog::disarm();
         n += 1;
         sum.done += 1;
         sum.stats.merge(&out.stats, &[]);
@@ -584,12 +711,26 @@ pub fn search<S: Scenario>(cfg: &SearchCfg) -> SearchReport<S> {
         children.push((k, child));
     }
     let mut harness_errors = vec![];
+    let mut hung: Vec<(u64, String, String)> = vec![];
+    let mut hung_shards: Vec<u64> = vec![];
     for (k, mut c) in children {
+        let pid = c.id();
         match c.wait() {
             Ok(st) if st.success() => {}
+            Ok(st) if st.code() == Some(3) => {
+                if let Ok(t) = std::fs::read_to_string(format!("{dir}/shard-{k}.hung")) {
+                    let mut l = t.lines();
+                    let idx = l.next().and_then(|x| x.parse().ok()).unwrap_or(0);
+                    hung.push((idx, l.next().unwrap_or("").to_string(), l.next().unwrap_or("").to_string()));
+                    hung_shards.push(k);
+                } else {
+                    harness_errors.push(format!("worker {k} reported a hang but left no record"));
+                }
+            }
             Ok(st) => harness_errors.push(format!("worker {k} ended with {st}")),
             Err(e) => harness_errors.push(format!("worker {k}: {e}")),
         }
+        let _ = std::fs::remove_dir_all(format!("/dev/shm/verif-sim-{pid}"));
     }
     let mut stats = RunStats::default();
     let mut histories: HashSet<u64> = HashSet::new();
@@ -605,7 +746,9 @@ pub fn search<S: Scenario>(cfg: &SearchCfg) -> SearchReport<S> {
         let sum: ShardSummary = match js.ok().and_then(|t| serde_json::from_str(&t).ok()) {
             Some(s) => s,
             None => {
-                harness_errors.push(format!("worker {k} left no summary"));
+                if !hung_shards.contains(&k) {
+                    harness_errors.push(format!("worker {k} left no summary"));
+                }
                 continue;
             }
         };
@@ -632,17 +775,7 @@ pub fn search<S: Scenario>(cfg: &SearchCfg) -> SearchReport<S> {
     }
     samples.sort_by_key(|s| s.0);
     viol_idx.sort();
-    // re-execute the violating runs here (deterministic in (seed, index))
-    let mut violations = vec![];
-    for i in viol_idx.into_iter().take(4) {
-        let (sc, out) = run_one::<S>(cfg.base_seed, cfg.tier, i);
-        if out.violation.is_some() {
-            violations.push((i, sc, out));
-        } else {
-            println!("HARNESS-ERROR: violation at index {i} did not reproduce in the parent process");
-            std::process::exit(2);
-        }
-    }
+    hung.sort();
     SearchReport {
         runs: done,
         nontrivial_distinct: nontrivial.len() as u64,
@@ -651,7 +784,10 @@ pub fn search<S: Scenario>(cfg: &SearchCfg) -> SearchReport<S> {
         stats,
         wall_s: start.elapsed().as_secs_f64(),
         samples: samples.into_iter().map(|s| s.1).take(8).collect(),
-        violations,
+        violations: viol_idx,
+        hung,
+        tier: cfg.tier,
+        _marker: std::marker::PhantomData,
         known_hits,
         stopped_early: stopped,
     }
@@ -754,31 +890,97 @@ pub fn conclude<S: Scenario>(rep: &SearchReport<S>, base_seed: u64) -> (i32, u64
     }
     let mut new_violations = 0u64;
     let mut code = 0;
-    for (idx, sc, out) in &rep.violations {
-        let v = out.violation.as_ref().unwrap();
+    for (idx, path, sig) in &rep.hung {
+        if let Some(k) = known.iter().find(|k| &k.signature == sig) {
+            println!("KNOWN-FINDING: property={} {} (signature={}, run {} never finished)", S::PROP, k.text, sig, idx);
+            continue;
+        }
         new_violations += 1;
-        if new_violations > 1 {
+        if code == 0 {
+            println!(
+                "violation found: property={} index={} class={} (the run never reached another scheduling point within {} s)",
+                S::PROP, idx, HANG_CLASS, watchdog::hang_limit_s()
+            );
+            println!("VIOLATION property={} replay={}", S::PROP, path);
+            code = 1;
+        }
+    }
+    for idx in &rep.violations {
+        new_violations += 1;
+        if code != 0 {
             continue; // report one, minimised
         }
-        println!(
-            "violation found: property={} index={} class={} detail={}",
-            S::PROP, idx, v.class, v.detail
-        );
-        let (msc, mout, ms) = minimise(sc, out, env_u64("VERIF_MINIMISE_MS", 20_000));
-        let path = write_replay(&msc, &mout, base_seed, *idx, &ms);
-        let mv = mout.violation.as_ref().unwrap();
-        println!(
-            "minimised: size {} -> {}, trace {} -> {} decisions, {} shrink steps; class={} detail={}",
-            ms.orig_size,
-            msc.size(),
-            ms.orig_trace,
-            mout.traces.iter().map(|t| t.len()).sum::<usize>(),
-            ms.steps,
-            mv.class,
-            mv.detail
-        );
-        println!("VIOLATION property={} replay={}", S::PROP, path);
-        code = 1;
+        // the reporter re-executes the run (deterministic in (seed, index)),
+        // minimises it and writes the replay file; its output is ours
+        let exe = std::env::current_exe().expect("current exe");
+        let st = std::process::Command::new(exe)
+            .arg("--report")
+            .arg(S::PROP)
+            .arg(rep.tier.name())
+            .arg(base_seed.to_string())
+            .arg(idx.to_string())
+            .stdin(std::process::Stdio::null())
+            .status();
+        match st {
+            Ok(s) if s.code() == Some(1) => code = 1,
+            other => {
+                println!("HARNESS-ERROR: reporter for index {idx} ended with {other:?}");
+                std::process::exit(2);
+            }
+        }
     }
     (code, new_violations)
+}
+
+/// `sim --report <prop> <tier> <seed> <index>`: re-execute one violating run,
+/// write its replay file, minimise, overwrite the file, print the VIOLATION line.
+pub fn reporter_main<S: Scenario>(tier: Tier, base_seed: u64, idx: u64) -> i32 {
+    let limit = watchdog::hang_limit_s();
+    watchdog::arm(
+        limit,
+        Box::new(move || {
+            let prop_seed = derive(base_seed, S::LABEL);
+            let sc = S::generate(derive(prop_seed, idx), tier, idx);
+            let path = write_hang_replay(&sc, base_seed, idx, limit);
+            println!("violation found: property={} index={idx} class={HANG_CLASS}", S::PROP);
+            println!("VIOLATION property={} replay={}", S::PROP, path);
+            std::process::exit(1);
+        }),
+    );
+    let (sc, out) = run_one::<S>(base_seed, tier, idx);
+    watchdog::disarm();
+    let Some(v) = out.violation.clone() else {
+        println!("HARNESS-ERROR: violation at index {idx} did not reproduce in the reporter process");
+        return 2;
+    };
+    println!("violation found: property={} index={} class={} detail={}", S::PROP, idx, v.class, v.detail);
+    let path = write_replay(&sc, &out, base_seed, idx, &MinStats::default());
+    let budget_ms = env_u64("VERIF_MINIMISE_MS", 20_000);
+    {
+        let path = path.clone();
+        watchdog::arm(
+            limit + budget_ms as f64 / 1000.0,
+            Box::new(move || {
+                println!("minimisation did not come back; keeping the unminimised replay file");
+                println!("VIOLATION property={} replay={}", S::PROP, path);
+                std::process::exit(1);
+            }),
+        );
+    }
+    let (msc, mout, ms) = minimise(&sc, &out, budget_ms);
+    watchdog::disarm();
+    let path = write_replay(&msc, &mout, base_seed, idx, &ms);
+    let mv = mout.violation.as_ref().unwrap();
+    println!(
+        "minimised: size {} -> {}, trace {} -> {} decisions, {} shrink steps; class={} detail={}",
+        ms.orig_size,
+        msc.size(),
+        ms.orig_trace,
+        mout.traces.iter().map(|t| t.len()).sum::<usize>(),
+        ms.steps,
+        mv.class,
+        mv.detail
+    );
+    println!("VIOLATION property={} replay={}", S::PROP, path);
+    1
 }
